@@ -206,3 +206,7 @@ mod test {
         assert_eq!(bf.bitset.len(), 16);
     }
 }
+
+#[cfg(feature = "verif-hooks")]
+#[path = "/verif/kani/hooks_bloom.rs"]
+mod verif_hooks;
